@@ -96,6 +96,10 @@ func applyEdit(t *tree.Tree, e *Sexp) (*tree.Tree, string) {
 		}
 	case "clone":
 		t = t.Clone()
+	case "shuffle":
+		seed, _ := strconv.ParseInt(arg(1), 10, 64)
+		rand.Seed(seed)
+		t.ShuffleTips()
 	default:
 		return t, "unknown edit " + e.List[0].Atom
 	}
@@ -124,14 +128,43 @@ func c08(c *Sexp) *Sexp {
 	after := L()
 	problems := []string{}
 	var pm string
-	if t1, pm = preUse(t1, c.Get("pre1")); pm != "" {
+	isHead := func(e *Sexp, h string) bool {
+		return e != nil && e.IsList && len(e.List) > 0 && e.List[0].Atom == h
+	}
+	// (pre1 (fromcmp i E ...)): the reference is a Clone() of the i-th compared tree, taken after that tree
+	// was indexed, then edited (no re-indexing)
+	if p1 := c.Get("pre1"); isHead(p1, "fromcmp") {
+		i, _ := strconv.Atoi(p1.List[1].Atom)
+		if i < len(t2s) {
+			if err := t2s[i].ReinitIndexes(); err != nil {
+				return L(KV("panic", A("fromcmp reinit: "+err.Error())))
+			}
+			t1 = t2s[i].Clone()
+			for _, sub := range p1.List[2:] {
+				if t1, pm = applyEdit(t1, sub); pm != "" {
+					return L(KV("panic", A("pre1: "+pm)))
+				}
+			}
+		}
+	} else if t1, pm = preUse(t1, p1); pm != "" {
 		return L(KV("panic", A("pre1: "+pm)))
 	}
 	if pres := c.Get("pres"); pres != nil && pres.IsList {
 		for i, e := range pres.List {
 			if i < len(t2s) {
 				var m string
-				if t2s[i], m = preUse(t2s[i], e); m != "" {
+				if isHead(e, "fromref") {
+					// the compared tree is a Clone() of the (already indexed) reference, then edited
+					if err := t1.ReinitIndexes(); err != nil {
+						return L(KV("panic", A("fromref reinit: "+err.Error())))
+					}
+					t2s[i] = t1.Clone()
+					for _, sub := range e.List[1:] {
+						if t2s[i], m = applyEdit(t2s[i], sub); m != "" {
+							return L(KV("panic", A(fmt.Sprintf("pres[%d]: %s", i, m))))
+						}
+					}
+				} else if t2s[i], m = preUse(t2s[i], e); m != "" {
 					return L(KV("panic", A(fmt.Sprintf("pres[%d]: %s", i, m))))
 				}
 			}
@@ -154,7 +187,17 @@ func c08(c *Sexp) *Sexp {
 		}
 		if pres := c.Get("pres"); pres != nil && pres.IsList && len(pres.List) > 0 {
 			var m string
-			if t2, m = preUse(t2, pres.List[0]); m != "" {
+			if isHead(pres.List[0], "fromref") {
+				if err := t1.ReinitIndexes(); err != nil {
+					return L(KV("panic", A("fromref reinit: "+err.Error())))
+				}
+				t2 = t1.Clone()
+				for _, sub := range pres.List[0].List[1:] {
+					if t2, m = applyEdit(t2, sub); m != "" {
+						return L(KV("panic", A("pres[0]: "+m)))
+					}
+				}
+			} else if t2, m = preUse(t2, pres.List[0]); m != "" {
 				return L(KV("panic", A("pres[0]: "+m)))
 			}
 		}
@@ -162,10 +205,24 @@ func c08(c *Sexp) *Sexp {
 			problems = []string{}
 			after = L(KV("t1after", DumpTree(t1, &problems)), KV("t2after", L(DumpTree(t2, &problems))), KV("audit", Strs(problems)))
 		}
-		if e := t1.ReinitIndexes(); e != nil {
+		// preparation of both trees: ReinitIndexes, or (prep three) the three calls the documentation of
+		// CommonEdges / FindEdge / SameBipartition names: UpdateTipIndex(); ClearBitSets(); UpdateBitSet()
+		prep := func(t *tree.Tree) error {
+			if c.Str("prep") == "three" {
+				if e := t.UpdateTipIndex(); e != nil {
+					return e
+				}
+				if e := t.ClearBitSets(); e != nil {
+					return e
+				}
+				return t.UpdateBitSet()
+			}
+			return t.ReinitIndexes()
+		}
+		if e := prep(t1); e != nil {
 			return L(KV("err", A("reinit t1: "+e.Error())))
 		}
-		if e := t2.ReinitIndexes(); e != nil {
+		if e := prep(t2); e != nil {
 			return L(KV("err", A("reinit t2: "+e.Error())))
 		}
 		tr1, com, e := t1.CommonEdges(t2, tips)
